@@ -5,6 +5,7 @@ field.rs `as_rust_type`): a lookup returns only a component of the wanted name, 
 prefix binding, once made, is never changed — neither by a later declaration nor by merging an imported
 file; a prefix bound to a schema namespace never denotes a builtin.
 -/
+import ZeepVerif.Lemmas.SplitType
 import ZeepVerif.Model.Reader
 
 namespace ZeepVerif.Props.C09
@@ -87,9 +88,9 @@ theorem c09_default_keeps_bindings (d : Doc) (u p : String) (n : Ns) (h : lookup
 /-- an unprefixed reference is resolved through the empty prefix, i.e. it denotes the default namespace
     when one is bound and known — never a builtin of the same local name -/
 theorem c09_unprefixed_is_default (d : Doc) (l : String) (n : Ns)
-    (hp : lookupNs d "" = some n) (hsplit : splitType l = (l, some "")) :
+    (hp : lookupNs d "" = some n) (hcolon : ':' ∉ l.toList) :
     asRustType d l = .other (xmlNameToRustName l) (some n.rustModName) := by
-  simp [asRustType, hsplit, hp]
+  simp [asRustType, ZeepVerif.Lemmas.SplitType.splitType_unprefixed l hcolon, hp]
 
 theorem lookup_fold_keeps (ol l : List (String × Ns)) (p : String) (n : Ns)
     (h : (l.find? (fun x => x.1 == p)).map (·.2) = some n) :
@@ -138,9 +139,9 @@ theorem c09_extend_keeps_bindings (me other : Doc) (p : String) (n : Ns) (h : lo
 /-- a prefix bound to one of the schema's namespaces denotes a user type of that namespace's module,
     even when the local name is the name of an XSD builtin -/
 theorem c09_user_prefix_not_builtin (d : Doc) (pfx l : String) (n : Ns)
-    (hp : lookupNs d pfx = some n) (hsplit : splitType (pfx ++ ":" ++ l) = (l, some pfx)) :
+    (hp : lookupNs d pfx = some n) (hcolon : ':' ∉ pfx.toList) :
     asRustType d (pfx ++ ":" ++ l) = .other (xmlNameToRustName l) (some n.rustModName) := by
-  simp [asRustType, hsplit, hp]
+  simp [asRustType, ZeepVerif.Lemmas.SplitType.splitType_prefixed pfx l hcolon, hp]
 
 /-! non-vacuity: two namespaces define `Item`; the lookup in the second namespace returns the second -/
 example : lookupRead
